@@ -29,6 +29,8 @@ U_PLAIN = "class Unrelated:\n    pass\n\n\ndef unrelated_fun(a: int) -> int:\n  
 U_CHANGED = "class Unrelated:\n    def extra(self) -> str:\n        ...\n\n\ndef unrelated_fun(a: str, b: int = 2) -> str:\n    ...\n\n\nclass Another:\n    pass\n"
 U_SAME = ("class Helper:\n    def meth(self, q: str) -> str:\n        ...\n\n\nclass Other:\n    pass\n\n\nclass Sibling:\n    pass\n\n\n"
           "def first(z: Helper) -> Other:\n    ...\n\n\nclass Col:\n    pass\n\n\n"
+          "SibAlias = Other\n\n\nclass UsesSibAliasToo(SibAlias):\n    pass\n\n\n"
+          "HandleAlias = Sibling\n\n\nclass UsesAliasToo(HandleAlias):\n    def via(self, h: HandleAlias) -> HandleAlias:\n        ...\n\n\n"
           "INSTANCE = Helper()\nOTHER = Other()\nSIB = Sibling()\nCOL = Col()\n\n\ndef make() -> Helper:\n    return Helper()\n")
 
 
@@ -39,6 +41,8 @@ def m_source(base: str, order: int) -> str:
     if base == "references-sibling":
         head.append(f"from {PKG}.sibmod import Sibling")
         decls.append("def uses_sibling(s: Sibling) -> Sibling:\n    ...\n")
+        # an alias of a class that M imports; an unrelated module may bind the same alias name to another class
+        decls.append("SibAlias = Sibling\n\n\nclass UsesSibAlias(SibAlias):\n    def via(self, s: SibAlias) -> SibAlias:\n        ...\n")
     if base == "private-mixin":
         head.append(f"from {PKG}._mixin import _Summarizable")
         decls.append("class Report(_Summarizable):\n    def render(self) -> int:\n        ...\n")
@@ -48,6 +52,8 @@ def m_source(base: str, order: int) -> str:
         # functions among themselves, classes among themselves (a subclass stays after its base class)
         extra = decls[NFIX:]
         decls = [decls[1], decls[0], decls[8]] + extra + [decls[7], decls[6], decls[4], decls[5], decls[2], decls[3]]
+    # an alias of M's own class, used as superclass and as type; an unrelated module may bind the same alias name to a class of its own
+    decls.append("HandleAlias = Helper\n\n\nclass UsesAlias(HandleAlias):\n    def via(self, h: HandleAlias) -> HandleAlias:\n        ...\n")
     return "\n".join(head) + "\n\n\n" + "\n\n".join(decls)
 
 
